@@ -164,6 +164,10 @@ ProcLocOK(e, ov, r) ==
               r.byte = (e.pos + ov.n) \div 8 /\ r.bit = (e.pos + ov.n) % 8 /\ r.fmtc = <<>>
          [] ov.k = "fmt" ->
               r.byte = e.pos \div 8 /\ r.bit = NoBit /\ r.fmtc = ov.c
+(* the one deviation that is recognised (observation `bitrel`): the override bit counted from bit 0 of the byte
+   in which the entry starts instead of from the entry's first bit - the two differ only for an entry that
+   does not start on a byte boundary                                                                     *)
+ByteRelBit(e, ov, r) == ov.k = "bit" /\ r.sm = e.dir /\ r.byte = e.pos \div 8 /\ r.bit = ov.n /\ r.fmtc = <<>>
 PackLocOK(d, r) ==
     /\ r.sm = d.dsm /\ r.byte = d.pos + d.poff
     /\ IF d.ov.k = "bit" THEN r.bit = d.ov.n /\ r.fmtc = <<>>
@@ -210,7 +214,8 @@ DeclVerdict(lay, d, o) ==
              m == MatchesOf(lay, d) IN
         IF m = {} THEN <<IF o.status = "keyerror" THEN "unmapped" ELSE "phantom", "n/a">>
         ELSE IF o.status # "ok" THEN <<"lost", "n/a">>
-        ELSE IF ~ResWF(o) \/ ~\E k \in m : ProcLocOK(all[k], d.ov, o) THEN <<"wrongplace", "n/a">>
+        ELSE IF ~ResWF(o) \/ ~\E k \in m : ProcLocOK(all[k], d.ov, o) THEN
+            <<IF \E k \in m : ByteRelBit(all[k], d.ov, o) THEN "bitrel" ELSE "wrongplace", "n/a">>
         ELSE <<"ok", ProcFit(lay, all[CHOOSE k \in m : ProcLocOK(all[k], d.ov, o)], d.ov, o)>>
 
 (* R4: the pairs of resolved variables that share bits without one containing the other; two variables
